@@ -270,6 +270,9 @@ func c19TreeCases() []c19TreeCase {
 		{Name: "external-cycle-through-an-aliased-directory", Nodes: []gen.NodeSpec{l("out", "../outside/alias/ext"), f("a")}, Out: []gen.NodeSpec{d("real/ext"), l("alias", "real"), l("real/ext/back", "../../alias/ext"), f("real/ext/f")}},
 		{Name: "external-cycle-through-two-aliases", Nodes: []gen.NodeSpec{l("out", "../outside/a1/ext")}, Out: []gen.NodeSpec{d("real/ext"), l("a1", "real"), l("a2", "a1"), l("real/ext/back", "../../a2/ext"), f("real/ext/f")}},
 		{Name: "in-tree-directory-reached-by-its-alias", Nodes: []gen.NodeSpec{d("real/sub"), l("alias", "real"), l("real/sub/again", "../../alias/sub"), f("real/sub/f")}},
+		{Name: "link-through-itself-with-a-tail", Nodes: []gen.NodeSpec{l("a", "a/x"), f("f")}},
+		{Name: "two-links-through-each-other-with-tails", Nodes: []gen.NodeSpec{l("a", "b/y"), l("b", "a"), f("f")}},
+		{Name: "link-through-itself-and-up", Nodes: []gen.NodeSpec{d("d"), l("d/a", "../d/a/../x"), f("f")}},
 		{Name: "link-to-parent-of-src", Nodes: []gen.NodeSpec{l("up", ".."), f("a")}},
 		{Name: "link-to-root-of-filesystem", Nodes: []gen.NodeSpec{l("slash", "/c19t/case")}},
 		{Name: "link-to-external-fifo", Nodes: []gen.NodeSpec{l("pipe", "../outside/fifo")}, Out: []gen.NodeSpec{{Path: "fifo", Kind: "fifo", Mode: 0644}}},
